@@ -293,10 +293,15 @@ theorem compSatisfiable_spec {U : List Con} {Us : List (List Con)} {s : CSt} (h 
   · simp only [hun, ↓reduceIte, pure, CM.pure]
     exact ⟨⟨fun hb => (by cases hb), fun hs => (h.unsatOk hun hs).elim⟩, h⟩
   · have hun' : s.c.unsat = false := by simpa using hun
-    simp only [hun', Bool.false_eq_true, ↓reduceIte, CM.bind]
-    have hl := checkLoop_spec H F s.c.unchecked s h
+    simp only [hun', Bool.false_eq_true, ↓reduceIte, CM.bind, orderChildren, orderOracle_run]
+    -- the unchecked children in the order the weak set is iterated: the same children
+    have hord := mem_reorderBy (fun (j : Nat) k => k == [j])
+      (E.pick (s.c.unchecked.map fun j => [j]) (s.c.unchecked.map fun j => [j]).length s.w.tick) s.c.unchecked
+    generalize reorderBy (fun (j : Nat) k => k == [j])
+      (E.pick (s.c.unchecked.map fun j => [j]) (s.c.unchecked.map fun j => [j]).length s.w.tick) s.c.unchecked = order at hord
+    have hl := checkLoop_spec H F order _ (h.set_tick (s.w.tick + 1))
     revert hl
-    generalize checkLoop E none s.c.unchecked s = res
+    generalize checkLoop E none order _ = res
     obtain ⟨r, s1⟩ := res
     cases r with
     | error e => exact fun hl => ⟨hl.1, hl.2.1⟩
@@ -309,11 +314,11 @@ theorem compSatisfiable_spec {U : List Con} {Us : List (List Con)} {s : CSt} (h 
         refine ⟨⟨fun hb => (by cases hb), fun ⟨a, ha⟩ => ?_⟩, h1⟩
         exact (hns ⟨a, (h.sem hun' a).mp ha j hjl⟩).elim
       | true =>
-        simp only [Bool.not_true, Bool.false_eq_true, ↓reduceIte, CM.modifyC, pure, CM.pure]
+        simp only [Bool.not_true, Bool.false_eq_true, ↓reduceIte, pure]
         have hall : ∀ j ∈ s.c.solverList, Satisfiable (Us.getD j []) := by
           intro j hj
           by_cases hu : j ∈ s.c.unchecked
-          · exact h3 rfl j hu hj
+          · exact h3 rfl j ((hord j).mpr hu) hj
           · exact h.checked j hj hu
         have hsat : Satisfiable U := by
           obtain ⟨a, ha, _⟩ := children_joint_model H.reg h [] (fun _ => 0) s.c.solverList (solverList_nodup _)
